@@ -1,13 +1,58 @@
 """C02 — activation periods are judged independently and are always closed."""
+import concurrent.futures
+import json
+
 import vlib
 from checks import audcommon
 
 PID = "C02"
-THEOREMS = []
+THEOREMS = ["c02_periods_independent_and_well_formed", "c02_every_period_closed",
+            "c02_period_follows_condition", "c02_stale_condition_is_a_no_op",
+            "c02_nothing_outside_periods"]
+
+BITS = [(1, "period-starts-stops-do-not-alternate"), (2, "period-not-closed-at-end-of-play"),
+        (4, "report-outside-every-period"), (8, "period-not-judged-by-fresh-evaluator-with-one-end-judgement"),
+        (16, "periods-are-not-the-stretches-where-the-condition-holds"), (32, "audition-crashed")]
+
+ASSUMPTIONS = [
+    "govaluate is modelled by Model/Expr.v for the generated expression subset (constants, variables, [actor signal], comparison, && || !, + - *, the array/scalar functions); float64 is modelled by exact rationals, compared with 1e-9 relative tolerance (1/50 absolute in the final round, whose time stamp is the wall clock)",
+    "member names are distinct (the parser keys the audience by name)",
+    "samples reach the audition only for signals with a sink (detectSignals' a.sinks lookup), which the harness reproduces through the hook VerifSinks",
+    "channel sends to the collector never block / are never cancelled in the model (the hook uses a large buffer); cancellation is C07's subject",
+    "theorem c02_every_period_closed assumes the audition was not aborted by an evaluation error (an aborted audition stops visiting auditors, in the code as in the model)",
+]
+
+
+def classify(code):
+    return [name for bit, name in BITS if code & bit]
+
+
+def eval_shard(args):
+    tag, cases_v = args
+    queries = [("M", "bad_indices case_model_bad cases"),
+               ("OC", "map case_oracle_code cases")]
+    rc, cout, q, path = vlib.eval_cases(PID, tag, audcommon.HEADER % "Corr.C02", cases_v, queries, timeout=3000)
+    return rc, cout, {k: vlib.parse_nat_list(v) for k, v in q.items()}, path
+
+
+def split_cases(cases_v, nshards):
+    """cases.v holds one `Definition cases : list aud_case := [ a; b; ... ].`
+    with one element starting per line with '{| k_cfg'."""
+    head, _, body = cases_v.partition(":= [\n")
+    body = body.rsplit("\n]", 1)[0]
+    items = body.split(";\n  {| k_cfg")
+    items = [items[0].strip()] + ["{| k_cfg" + x for x in items[1:]]
+    shards = []
+    per = (len(items) + nshards - 1) // nshards
+    for i in range(0, len(items), per):
+        chunk = items[i:i + per]
+        shards.append((i, "Definition cases : list aud_case := [\n  " + ";\n  ".join(chunk) + "\n].\n"))
+    return shards
 
 
 def run(tier, seed):
     res = vlib.Result(PID, tier, seed, level="proof")
+    res.assumptions = ASSUMPTIONS
     ok, detail = vlib.proof_stage(res, "C02", THEOREMS)
     if not ok:
         res.violation(None, "proof obligations of C02 broken: %s" % detail.get("broken"),
@@ -20,20 +65,42 @@ def run(tier, seed):
     if r is None:
         return res.finish()
     cases_v, cases, summary = r
-    queries = [("M", "bad_indices case_model_bad cases"), ("O", "bad_indices case_oracle_bad cases")]
-    rc, cout, q, path = vlib.eval_cases(PID, tier, audcommon.HEADER % "Corr.C02", cases_v, queries, timeout=3000)
-    vals = {k: vlib.parse_nat_list(v) for k, v in q.items()}
-    res.coverage.update({"evaluations": summary["cases"], "distinct_nontrivial": summary["distinct_nontrivial"],
-                         "rule": "generated audiences x event histories", "samples": summary["samples"][:2],
-                         "distribution": summary["stats"]})
-    if rc != 0 or any(v is None for v in vals.values()):
-        res.violation(None, "correspondence cases did not evaluate", {"kind": "cases-eval", "output": cout[-6000:]}, no_input=True)
-        return res.finish()
-    print("M", vals["M"][:20], len(vals["M"]), "O", vals["O"][:20], len(vals["O"]))
-    for idx in vals["O"][:3]:
-        c = cases[idx]
-        res.violation("tbd", "oracle", {"kind": "failing-input", "config": c["Cfg"], "events": c["Events"], "outs": c["Result"]["Outs"]})
-    for idx in vals["M"][:3]:
-        c = cases[idx]
-        res.violation(None, "model", {"kind": "corr", "config": c["Cfg"], "events": c["Events"], "outs": c["Result"]["Outs"], "err": c["Result"]["AuditErr"]}, no_input=True)
+    nshards = 1 if tier == "quick" else 14
+    shards = split_cases(cases_v, nshards)
+    M, OC = [], []
+    with concurrent.futures.ThreadPoolExecutor(max_workers=nshards) as ex:
+        results = list(ex.map(eval_shard, [("%s%d" % (tier, i), sv) for i, (off, sv) in enumerate(shards)]))
+    for (off, _), (rc, cout, vals, path) in zip(shards, results):
+        if rc != 0 or vals.get("M") is None or vals.get("OC") is None:
+            res.violation(None, "correspondence cases did not evaluate (shard at %d)" % off,
+                          {"kind": "cases-eval", "output": cout[-6000:]}, no_input=True)
+            return res.finish()
+        M += [off + i for i in vals["M"]]
+        OC += vals["OC"]
+    res.coverage.update({
+        "evaluations": summary["cases"], "distinct_nontrivial": summary["distinct_nontrivial"],
+        "rule": "generated audiences (1-3 auditors; activation: none/throughout/mood-based/signal-based/t-based/arbitrary boolean; predicates over signals only or also t/mood/moodt/computed variables; every accepted modality; collects/computes chains in 1 of 5) x event histories (0-24 events: mood changes incl. repeated moods, samples with repeated values and equal time stamps, then the end of the play), all through the real checkEvent/checkEventForAuditor/checkFinal via the hook; non-trivial = distinct (config, history) with >= 3 events and >= 2 reports",
+        "samples": summary["samples"][:2],
+        "distribution": summary["stats"],
+        "traces_validated_against_impl": summary["cases"],
+    })
+    bad_oracle = [(i, c) for i, c in enumerate(OC) if c]
+    seen = set()
+    for i, code in bad_oracle:
+        for sig in classify(code):
+            if sig in seen:
+                continue
+            seen.add(sig)
+            c = cases[i]
+            res.violation(sig, "audition violates the period specification (%s)" % sig,
+                          {"kind": "failing-input", "config": c["Cfg"], "events": c["Events"],
+                           "outputs": c["Result"]["Outs"], "audit_err": c["Result"]["AuditErr"],
+                           "panic": c["Result"]["Panic"], "oracle_bits": classify(code),
+                           "replay": "cmd.VerifAudition(config, events, false, false)"})
+    if not res.violations and not res.known and M:
+        c = cases[M[0]]
+        res.violation(None, "model (Model/Audit.v) and implementation disagree on %d of %d histories while the period oracle passes: correspondence case_model_bad broken" % (len(M), len(cases)),
+                      {"kind": "correspondence", "n_disagreements": len(M), "config": c["Cfg"], "events": c["Events"],
+                       "outputs": c["Result"]["Outs"], "audit_err": c["Result"]["AuditErr"]}, no_input=True)
+    res.coverage["disagreements"] = {"model_vs_impl": len(M), "oracle_failures": len(bad_oracle)}
     return res.finish()
